@@ -217,11 +217,32 @@ def _account(mod, stats, case, phase_name, by_construction=False):
                 stats.samples.append(json.loads(canon(case)))
 
 
+def run_any(mod, case, ctx):
+    """A case is either what the property module generates, or a *sequence*
+    {"sequence_of": [case, case, ...]} executed in order in one process - the
+    replayable form of a failure that depends on an earlier call (stale caches,
+    state carried between calls)."""
+    if isinstance(case, dict) and "sequence_of" in case:
+        for c in case["sequence_of"]:
+            mod.run_case(c, ctx)
+    else:
+        mod.run_case(case, ctx)
+
+
 def _run_one(mod, ctx, stats, case, phase_name, by_construction=False):
-    _account(mod, stats, case, phase_name, by_construction)
+    base = case["sequence_of"][-1] if "sequence_of" in case else case
+    _account(mod, stats, base, phase_name, by_construction)
     ctx.case = case
     try:
-        mod.run_case(case, ctx)
+        run_any(mod, case, ctx)
+        if "sequence_of" not in case and hasattr(mod, "siblings"):
+            # sibling cases share part of their identity with the case just run (same
+            # spike times on other edges, same counts and sums, ...): a result that was
+            # memoised on too small a key is wrong for them
+            for sib in mod.siblings(case):
+                ctx.case = {"sequence_of": [case, sib]}
+                stats.per_phase[phase_name + ":sibling"] += 1
+                mod.run_case(sib, ctx)
     except SkipCase:
         stats.skipped += 1
     finally:
@@ -280,8 +301,9 @@ def _worker_inner(job):
         from hypothesis import given, settings, HealthCheck, Phase
         strat = phase.strategy(tier)
 
-        shrink = dict(best=None, until=None)
+        shrink = dict(best=None, until=None, recent=[])
         shrink_budget = 30.0 if tier == "quick" else 120.0
+        ring = collections.deque(maxlen=40)
 
         @hypothesis.seed(seed_val)
         @settings(max_examples=max(1, n_examples), database=None, deadline=None,
@@ -307,13 +329,17 @@ def _worker_inner(job):
                 if shrink["best"] is None:
                     shrink["until"] = time.time() + shrink_budget
                 shrink["best"] = canon(case)
+                shrink["recent"] = list(ring)
                 raise
+            finally:
+                ring.append(case)
 
         try:
             test()
         except Violation as v:
             violations.append(dict(label=v.label, detail=v.detail,
-                                   case=json.loads(canon(v.case)), phase=phase.name))
+                                   case=json.loads(canon(v.case)), phase=phase.name,
+                                   recent=json.loads(canon(shrink["recent"]))))
         except BaseException as e:
             v = _violation_in_group(e)
             if v is None:
@@ -324,7 +350,8 @@ def _worker_inner(job):
             violations.append(dict(label=v.label, detail="(not reproduced on an immediate "
                                    "second call in the same process: depends on the call "
                                    "history) " + str(v.detail),
-                                   case=json.loads(canon(v.case)), phase=phase.name))
+                                   case=json.loads(canon(v.case)), phase=phase.name,
+                                   recent=json.loads(canon(shrink["recent"]))))
     elif phase.kind == "machine":
         import hypothesis
         from hypothesis import settings, HealthCheck, Phase
@@ -401,6 +428,58 @@ def replay_file(pid, label, case):
     return os.path.join(d, "%s-%s.json" % (safe, digest(case)[:8]))
 
 
+def _fresh_replay(pid, case):
+    """exit code of replaying `case` in a fresh interpreter"""
+    import subprocess
+    import tempfile
+    fd, tmp = tempfile.mkstemp(suffix=".json", prefix="vreplay_")
+    try:
+        with os.fdopen(fd, "w") as f:
+            json.dump(dict(case=case), f, default=_json_default)
+        r = subprocess.run([os.path.join(env.VERIF_DIR, "vcheck"), pid, "--replay", tmp],
+                           capture_output=True, text=True, timeout=600)
+        return r.returncode
+    except Exception:
+        return 2
+    finally:
+        try:
+            os.unlink(tmp)
+        except OSError:
+            pass
+
+
+def _stabilise(pid, v):
+    """Makes sure the replay file reproduces in a fresh process.  A failure that
+    needs an earlier call (stale cache ...) does not: then the cases executed
+    just before it in the worker are prepended and the sequence is minimised."""
+    if "sequence_of" in v["case"] or v.get("phase", "").startswith("corpus"):
+        return
+    if v["case"].get("kind") == "history":
+        return
+    rc = _fresh_replay(pid, v["case"])
+    if rc == 1:
+        return
+    recent = v.get("recent") or []
+    seq = list(recent) + [v["case"]]
+    if not recent or _fresh_replay(pid, {"sequence_of": seq}) != 1:
+        v["detail"] = "(observed in a long-running process, NOT reproduced by replaying " \
+                      "the case alone in a fresh process: depends on call history) " + \
+                      str(v["detail"])
+        return
+    prefix = list(recent)
+    i = 0
+    budget = time.time() + 180
+    while i < len(prefix) and time.time() < budget:
+        trial = prefix[:i] + prefix[i + 1:]
+        if _fresh_replay(pid, {"sequence_of": trial + [v["case"]]}) == 1:
+            prefix = trial
+        else:
+            i += 1
+    v["case"] = {"sequence_of": prefix + [v["case"]]}
+    v["detail"] = "(needs the preceding call(s) of the sequence: state carried between " \
+                  "calls) " + str(v["detail"])
+
+
 def run_replay(mod, pid, path):
     shim = env.setup()
     with open(path) as f:
@@ -409,7 +488,7 @@ def run_replay(mod, pid, path):
     ctx = Ctx(shim)
     ctx.case = case
     try:
-        mod.run_case(case, ctx)
+        run_any(mod, case, ctx)
     except Violation as v:
         print("replay: %s  %s" % (v.label, v.detail))
         print("VIOLATION property=%s replay=%s" % (pid, os.path.relpath(path, env.VERIF_DIR)))
@@ -474,7 +553,7 @@ def _main(mod, pid, args, shim, t0):
             if wit is not None:
                 ctx.case = wit
                 try:
-                    mod.run_case(wit, ctx)
+                    run_any(mod, wit, ctx)
                 except Violation:
                     still = True
                 except SkipCase:
@@ -572,6 +651,7 @@ def _main(mod, pid, args, shim, t0):
     for line in known_lines:
         print(line)
     for v in found:
+        _stabilise(pid, v)
         path = replay_file(pid, v["label"], v["case"])
         with open(path, "w") as f:
             json.dump(dict(property=pid, label=v["label"], detail=v["detail"],
